@@ -326,8 +326,10 @@ def finish(plan: Plan, results, tier, seed, t_start, checker_cmd):
         coverage["explanation"] = (plan.explanation + " | some obligations undecided on this run; not a proof").strip()
     ev = dict(property_id=pid, tier=tier, seed=seed, level=level, coverage=coverage,
               assumptions=plan.assumptions, wall_s=round(time.time() - t_start, 2), violations=len(violations))
-    os.makedirs(os.path.join(VERIF, "evidence"), exist_ok=True)
-    evp = os.path.join(VERIF, "evidence", f"{pid}.json")
+    # runs against a scratch copy of the repository (mutation tests) must never overwrite the committed evidence
+    evdir = "evidence" if os.path.realpath(REPO) == "/repo" else "evidence_scratch"
+    os.makedirs(os.path.join(VERIF, evdir), exist_ok=True)
+    evp = os.path.join(VERIF, evdir, f"{pid}.json")
     with open(evp, "w") as fh:
         json.dump(jsonable(ev), fh, indent=1)
     try:
